@@ -723,7 +723,7 @@ func (t *Term) Subst(fn *ssa.Function, args []*Term) *Term {
 func (p *Program) ReturnTerms(fn *ssa.Function) [][]*Term {
 	var out [][]*Term
 	for _, b := range fn.Blocks {
-		if len(b.Instrs) == 0 {
+		if len(b.Instrs) == 0 || b == fn.Recover {
 			continue
 		}
 		if r, ok := b.Instrs[len(b.Instrs)-1].(*ssa.Return); ok {
